@@ -837,6 +837,16 @@ def stream_cmp(rng, tier):
         for f in "ui":
             yield "cmp %s full %s %s" % (f, hx(a), hx(b))
         yield "cross u %s %s" % (hx(a), hx(b))
+    # a value against what its accessors hand out as slices of it (`base()`, the part before the
+    # query, before the fragment): the harness also compares them as views into one buffer
+    for a in ["https://example.org/a/b/c?q#f", "s://h/a/b", "s:/a/b/", "s:a/b?q", "s://h?q#f", "//h/a/b#f", "a/b/c?q", "/a/b/c"]:
+        cuts = set([a.split("#")[0], a.split("?")[0].split("#")[0], a[:a.split("?")[0].split("#")[0].rfind("/") + 1], a])
+        for b in cuts:
+            if b:
+                for f in "ui":
+                    yield "cmp %s ref %s %s" % (f, hx(a), hx(b))
+                    if ":" in a.split("/")[0] and ":" in b.split("/")[0]:
+                        yield "cmp %s full %s %s" % (f, hx(a), hx(b))
     # every value the sources newly mention, in every component that may hold it, against spellings
     # whose byte order and case-folded order disagree (`B…` sorts before `a…` as bytes, after it
     # without case), its own upper / lower case, and a neighbour
@@ -1244,6 +1254,12 @@ def stream_convert(rng, tier):
                 yield "relto %s %s %s" % (f, hx(a), hx(b))
                 yield "suffix %s full %s %s" % (f, hx(a), hx(b))
                 yield "resolve %s %s %s" % (f, hx(a), hx(b))
+    # stand-alone path buffers edited through the handle, both families (shield states included)
+    for p0 in ["//a/./b", "//a", "/./", "/.//a", "//", "/a/b", "a/b", "", "/", ".//a", "./a:b", "//a/b/../..", "/a//b"]:
+        for ops in ["norm", "pop", "push:" + hx("b"), "pop;push:" + hx("b"), "push:" + hx(""), "spush:" + hx(".."), "norm;pop;norm",
+                    "clear;push:" + hx(""), "sapp:" + hx("../x//y")]:
+            yield "hist u path %s pm[%s]" % (hx(p0), ops)
+            yield "hist i path %s pm[%s]" % (hx(p0), ops)
     # every single edit of the authority handle, empty values included, in both families
     for ab in ["s://h", "s://h/p", "s://u@h:1/p?q#f", "s://h:", "s://@h", "//h"]:
         for o1 in ["ui:" + ohx(v) for v in [None, "", "u", "u:p"]] + ["host:" + hx(v) for v in ["", "h", "[::1]"]] + \
@@ -1277,6 +1293,12 @@ def stream_routes(rng, tier):
                 for base in ["", "a", "/caf", "x/y"]:
                     yield "routes %s %s" % (kind, hx(base + d))
                     yield "routes %s %s" % (kind, hx("s://h/" + base + d + "?" + d + "#" + d))
+    # escapes that do not decode to UTF-8, or only up to the end of the component: still the text as it is
+    for kind in ["uriUserInfo", "uriHost", "uriQuery", "uriFragment", "uriSegment", "uriPath", "uri", "uriRef",
+                 "iriUserInfo", "iriHost", "iriQuery", "iriFragment", "iriSegment", "iriPath", "iri", "iriRef"]:
+        for t in ["a%80b", "%ff", "x%20y%C3", "%C3", "%E2%82", "%C0%AF", "%ED%A0%80", "%F5", "%41%80", "%80", "a%FFb%FE"]:
+            v = ("s:" + t) if kind in ("uri", "iri") else t
+            yield "routes %s %s" % (kind, hx(v))
     for kind in KINDS_U + KINDS_I:
         for _ in range(n // 2):
             s = sample_for_kind(rng, kind)
@@ -1317,7 +1339,7 @@ def stream_routes(rng, tier):
 
 
 DATA_MT = ["", "text/plain", "a", "image/png", "a#b", "a/b+c", "text/plain;charset=utf-8", "a;x=1", "é", "a b", "A.-_^!$&",
-           "a;base64;x=1", "base64", "a;x=base64"]
+           "a;base64;x=1", "base64", "a;x=base64", "text%2Fplain", "%41", "a%", "%", "a%2Cb", "a%3Bbase64"]
 # media types at and beyond the boundaries of 8- and 16-bit offsets
 DATA_MT_LONG = ["t/" + "x" * 253, "t/" + "x" * 254, "t/" + "x" * 255, "a/b;p=" + "v" * 300, "m" * 65535, "m" * 65536,
                 "m/" + "x" * 66000]
